@@ -11,7 +11,7 @@ Exhaustive enumeration (no sampling) of
 * part "PDE grammar": ``PDE`` instances built from a grammar of right-hand sides: every term of
   ``TERMS`` alone and every pair ``Ti - 0.5*Tj`` (operators laplace / gradient_squared / d_dx /
   divergence(gradient) / dot, nested and non-linear operands, powers, a scalar and a field constant via
-  ``consts``, coordinate dependence, explicit ``t``, ``integral``) x grid x BC variant (default, general
+  ``consts``, a ``user_funcs`` function, coordinate dependence, explicit ``t``, ``integral``) x grid x BC variant (default, general
   inhomogeneous, time dependent, ``bc_ops`` for one operator by exact key, by ``*:op`` and by ``var:*``)
   and two coupled fields (operators of one field inside the equation of the other, ``bc_ops`` keyed by
   the *equation*).  Terms containing ``sin(c)`` are not polynomial in the state: for them the
@@ -621,11 +621,16 @@ TERMS = {
     "cddx": ("{v}*d_d{x}({v})", {"d_d{x}": 0}, True),
     "divcgrad": ("divergence({v}*gradient({v}))", {"divergence": 1, "gradient": 0}, True),
     "intc": ("integral({v})*{v}", {}, True),
+    "lapuser": ("laplace(sq({v}))", {"laplace": 0}, True),  # user_funcs: sq(x) = x*x + 1
     "sinc": ("sin({v})", {}, False),
 }
 TERM_ORDER = list(TERMS)
 TWO_TERMS = ["lap", "gsq", "ddx", "xc", "fc", "lapsq"]
 K_CONST = 0.7
+
+
+def _user_sq(x):
+    return x * x + 1.0
 
 PGRIDS_QUICK = {
     "1d": {1: ["cart", [[0, 2]], [4], [False]], 2: ["cart", [[0, 1]], [2], [False]]},
@@ -636,7 +641,7 @@ PGRIDS_THOROUGH = {
     "1d": {1: ["cart", [[0, 3]], [6], [False]], 2: ["cart", [[0, 2]], [4], [False]]},
     "2d": {1: ["cart", [[0, 1.5], [-1, 3]], [3, 2], [True, False]], 2: ["cart", [[0, 1], [-1, 3]], [2, 2], [True, False]]},
     "spherical-hole": {1: ["sph", [0.5, 3.5], 6], 2: None},
-    "cylindrical": {1: ["cyl", 2, [0, 1.5], [2, 3], False], 2: None},
+    "cylindrical": {1: ["cyl", 2, [0, 1], [2, 2], False], 2: None},
     "1d-periodic": {1: ["cart", [[-1, 2]], [5], [True]], 2: None},
 }
 # SPEC_Y mirrors GEN (same values, the other class on each side): the D1 family inside ``PDE``
@@ -788,6 +793,9 @@ def eval_term(np, ctx, eqvar, tname, operand):
     if tname == "intc":
         tot = float(np.sum(d * grid.cell_volumes))
         return tot * d, abs(tot) * n(d)
+    if tname == "lapuser":
+        r = ScalarField(grid, d * d + 1.0).laplace(bc("laplace"), args=args).data
+        return r, n(r) + NL * (n(d) ** 2 + 1.0)
     if tname == "sinc":
         return np.sin(d), 1.0
     raise ValueError(tname)
@@ -836,6 +844,8 @@ def pde_case(case):
         cs = consts()
         if cs:
             kw["consts"] = cs
+        if any("sq(" in txt for txt in rhs_txt.values()):
+            kw["user_funcs"] = {"sq": _user_sq}
         return PDE(dict(rhs_txt), **kw)
 
     def mkstate(p):
